@@ -10,13 +10,20 @@ import (
 // RecoverHandler 返回一个异常捕获中间件。
 func RecoverHandler(next http.Handler) http.Handler {
 	return http.HandlerFunc(func(w http.ResponseWriter, r *http.Request) {
+		// 用完成标记而非 recover() 的返回值判断是否发生了 panic：
+		// panic(nil) 时 recover() 返回 nil，仍须当作异常处理。
+		finished := false
 		defer func() {
-			if result := recover(); result != nil {
-				internal.Error(r, fmt.Sprintf("%v\n%s", result, debug.Stack()))
-				w.WriteHeader(http.StatusInternalServerError)
+			if finished {
+				return
 			}
+
+			result := recover()
+			internal.Error(r, fmt.Sprintf("%v\n%s", result, debug.Stack()))
+			w.WriteHeader(http.StatusInternalServerError)
 		}()
 
 		next.ServeHTTP(w, r)
+		finished = true
 	})
 }
